@@ -25,10 +25,14 @@ VARIABLES sc, phase, fs, exit, effects
 vars == <<sc, phase, fs, exit, effects>>
 
 Init ==
-  /\ \E l \in BOOLEAN, h \in BOOLEAN, c \in BOOLEAN, i \in BOOLEAN, defout \in BOOLEAN, t \in Trouble, pre \in SUBSET Files :
+  /\ \E l \in BOOLEAN, h \in BOOLEAN, c \in BOOLEAN, i \in BOOLEAN, defout \in BOOLEAN, t \in Trouble, pre \in SUBSET Files,
+        v \in BOOLEAN, defs \in BOOLEAN :
         /\ (t \in HexTrouble => h) /\ (t = "bad-incdir" => i) /\ (t = "asm-compress" => c)
         /\ (~l => "lab" \notin pre) /\ (~h => "hex" \notin pre)
-        /\ sc = [labels |-> l, hex |-> h, compress |-> c, incdir |-> i, defout |-> defout, trouble |-> t, pre |-> pre]
+        \* -v (log to stdout) and --include-definitions (bundled chip definitions on the search path) change no file effect;
+        \* they are only explored together with the plain option set to keep the space small
+        /\ ((v \/ defs) => (~i /\ defout /\ pre = Files \cap (IF l THEN Files ELSE Files \ {"lab"}) \cap (IF h THEN Files ELSE Files \ {"hex"})))
+        /\ sc = [labels |-> l, hex |-> h, compress |-> c, incdir |-> i, defout |-> defout, trouble |-> t, pre |-> pre, verbose |-> v, incdefs |-> defs]
   /\ phase = "args" /\ exit = -1 /\ effects = <<>>
   /\ fs = [f \in Files |-> IF f \in sc.pre THEN "old" ELSE "absent"]
 
